@@ -827,7 +827,13 @@ fn check_synced_survives(wl: &Workload, r: &RunResult, rec: &[Vec<String>], out:
             Some(q) => q,
             None => continue,
         };
-        let synced_at = r.trace.iter().enumerate().skip(ia + 1).find(|(_, c)| **c == format!("s{}:ok", q)).map(|(j, _)| j);
+        // the first successful fsync of THAT file after the append — the file as it was: a machine crash (the
+        // unsynced entry is cut off), a deletion or a re-creation of the name (everything deleted, the numbering
+        // starts again) in between ends the search (false alarm found by seed 4 of session 4: an entry lost in a
+        // crash, its file deleted by a truncation, a later incarnation re-creating and fsyncing the same name)
+        let synced_at = r.trace.iter().enumerate().skip(ia + 1)
+            .take_while(|(_, c)| !(**c == "crash" || **c == format!("d{}:ok", q) || c.starts_with(&format!("c{}:", q))))
+            .find(|(_, c)| **c == format!("s{}:ok", q)).map(|(j, _)| j);
         let j = match synced_at {
             Some(j) => j,
             None => {
